@@ -146,11 +146,17 @@ IllFormed(ev) ==
        \cup If(sh.sense # ev.sense, "optimisation sense changed")
 ErrKinds == {"NonLinearExpression", "DivisionByZero", "EmptyAggregation", "VarAlreadyDeclared",
              "UnimplementedExpression", "NonBinaryLogicOperand", "MissingFiniteBounds",
-             "NonFiniteConstant"}
+             "NonFiniteConstant", "InvalidDomain"}
+\* a declared range that is not a domain: minimum above maximum, or a NonNegativeReal starting below zero
+InvalidDom(d) == \/ (d.lo.inf = 0 /\ d.hi.inf = 0 /\ d.lo.n * d.hi.d > d.hi.n * d.lo.d)
+                 \/ (d.kind = "nnreal" /\ d.lo.inf = 0 /\ d.lo.n < 0)
+                 \/ d.lo.inf = 1 \/ d.hi.inf = -1
 HasInfSide(ev, nm) == \E i \in 1..Len(ev.sdom) : ev.sdom[i].name = nm /\ (ev.sdom[i].lo.inf # 0 \/ ev.sdom[i].hi.inf # 0)
 BadErr(ev) ==
    If(ev.err.kind \notin ErrKinds, "unstructured error")
    \cup If(ev.err.kind = "VarAlreadyDeclared" /\ ev.err.name \notin Declared(ev), "auxiliary clash without a user variable of that name")
+   \cup If(ev.err.kind = "InvalidDomain" /\ ~\E i \in 1..Len(ev.sdom) : ev.sdom[i].name = ev.err.name /\ InvalidDom(ev.sdom[i]),
+           "invalid-domain error for a variable whose declared range is a domain")
    \cup If(ev.err.kind = "NonFiniteConstant" /\ ev.srcfinite,
            "non-finite constant although every source constant is finite: an underivable bound must be reported as missing bounds")
    \cup If(ev.err.kind = "MissingFiniteBounds" /\
